@@ -31,10 +31,18 @@ HANDLERS = {"umn": "default", "dir": DIRLIST, "full": "full"}
 # faults that only bite with the full handler list (PYG modules, ZIP archives)
 FULL_KINDS = ["dotdot-pyg", "socket-zip", "fifo-zip", "dangling-zip", "broken-pyg"]
 # non-UTF-8 names with the shipped syslog logger in force
+# special files sitting where the server looks for METADATA of another entry: the sidecar of a file, the
+# abstract of the directory or of a sub-directory, a .cap file, the directory cache
+META_NAMES = {"side": "f1.txt.abstract", "side3d": "m2.txt.3d", "dirabs": ".abstract", "subabs": "d/.abstract", "cap": ".cap/f1.txt", "cache": ".cache.pygopherd.dir", "subcache": "d/.cache.pygopherd.dir"}
+# (a dangling link in the place of the cache file is left out: the server writes its cache through it,
+# which creates the target -- a new entry, not an unservable one)
+META_KINDS = ["%s:%s" % (m, k) for m in META_NAMES for k in ("fifo", "socket", "dangling", "loop", "dir") if not (m.endswith("cache") and k == "dangling")]
 SYSLOG_KINDS = ["dangling-latin1", "fifo-latin1", "dotdot-latin1", "vanished-latin1"]
 
 
 def fault_name(kind, pos):
+    if ":" in kind:
+        return META_NAMES[kind.split(":")[0]]
     if kind.startswith("dot-"):
         return "." + POSITIONS[pos] + kind[4:]
     stem = POSITIONS[pos] + "-" + kind
@@ -102,6 +110,14 @@ def _plant(root, d, kind, pos):
     p = os.path.join(root, d, name)
     sel = "/" + d + "/" + name
     p = os.fsencode(p) if "\udce9" in name else p
+    if ":" in kind:
+        kind = kind.split(":")[1]
+        os.makedirs(os.path.dirname(p), exist_ok=True)
+        if os.path.lexists(p):
+            os.unlink(p)  # the cache file written by the baseline listing
+        if kind == "dir":
+            os.makedirs(p)
+            return name
     if kind in ("dotdot-pyg", "broken-pyg"):
         rig.write_file(p, b"raise RuntimeError('this module must never be imported')\n", mode=0o755)
         return name
@@ -127,7 +143,7 @@ def _plant(root, d, kind, pos):
         cwd = os.getcwd()
         os.chdir(os.path.dirname(p))
         try:
-            s.bind(os.fsencode(name))
+            s.bind(os.fsencode(os.path.basename(name)))
         finally:
             os.chdir(cwd)
             s.close()
@@ -339,6 +355,10 @@ def run(ck):
                 cases.append(("dir", h, ((k, p),)))
     for k in KINDS:
         cases.append(("dir", "full", ((k, "middle"),)))
+    for k in META_KINDS:
+        for h in ("umn", "dir", "full"):
+            cases.append(("dir", h, ((k, "first"),)))
+        cases.append(("dir", "umn", ((k, "first"), ("dangling", "middle"))))
     for h in ("umn", "dir"):
         for s in singles:
             cases.append(("dir", h, (s,)))
@@ -361,6 +381,6 @@ def run(ck):
     if pr.extra.get("capped"):
         ck.caps.append("%d shard(s) aborted early after hanging requests" % len(pr.extra["capped"]))
     ck.rule = ("fault sets = singles (%d kinds x 3 sort positions) and pairs of faulty entries planted in a 4-entry directory, x handler lists {UMN (shipped), plain DirHandler}, x %d protocols; "
-               "plus %d ZIP archives with an unservable member; distinct = (handler list, verdict classes, first fault kind)" % (len(KINDS), len(PROTOS), len(ZIP_MEMBERS)))
+               "special files in %d metadata positions (sidecar, directory abstract, .cap file, cache file); plus %d ZIP archives with an unservable member; distinct = (handler list, verdict classes, first fault kind)" % (len(KINDS), len(PROTOS), len(META_NAMES), len(ZIP_MEMBERS)))
     ck.bounds = {"fault_sets": len(cases), "protocols": len(PROTOS)}
     ck.assumptions = ["'entry deleted between enumeration and inspection' is produced by letting the directory enumeration report a name that does not exist; stat -> EACCES is injected at the VFS seam (the checks run as root)"]
